@@ -1,6 +1,7 @@
 package main
 
 import (
+	"reflect"
 	"go/types"
 	"math"
 	"strconv"
@@ -538,8 +539,28 @@ func stringsIntrinsic(name string, fn *ssa.Function) intrinsicFn {
 			if iv == nil || iv.T == nil {
 				return (*IfaceV)(nil)
 			}
-			// only identity of the dynamic type is observable through this value (map key, ==)
-			return &IfaceV{T: types.Typ[types.String], V: mkStr("reflect.Type:" + iv.T.String())}
+			return x.rtypeOf(iv.T)
+		}
+	case "reflect.Zero":
+		// reflect.Zero(t): a reflect.Value holding the zero value of t; only .Interface() is modelled
+		return func(x *Exec, f *ssa.Function, a []Value) Value {
+			t := x.rtypeFrom(a[0])
+			if t == nil {
+				x.abort("UNSUPPORTED", "reflect.Zero of an unknown type")
+			}
+			rv, _ := x.zero(f.Signature.Results().At(0).Type()).(*Agg)
+			x.rvalues[rv] = &IfaceV{T: t, V: x.zero(t)}
+			return rv
+		}
+	case "(reflect.Value).Interface":
+		return func(x *Exec, _ *ssa.Function, a []Value) Value {
+			if rv, ok := a[0].(*Agg); ok {
+				if v, ok := x.rvalues[rv]; ok {
+					return v
+				}
+			}
+			x.abort("UNSUPPORTED", "reflect.Value.Interface on a value the model did not create")
+			return nil
 		}
 	case "net/http.CanonicalHeaderKey", "net/textproto.CanonicalMIMEHeaderKey":
 		return func(x *Exec, _ *ssa.Function, a []Value) Value { return canonHeader(x, a[0]) }
@@ -654,6 +675,88 @@ func (x *Exec) findMethod(t types.Type, pkg *types.Package, m string) *ssa.Funct
 		if sel.Obj().Name() == m && (sel.Obj().Exported() || pkg == nil || sel.Obj().Pkg() == pkg) {
 			return x.prog.MethodValue(sel)
 		}
+	}
+	return nil
+}
+
+// ---- reflect.Type: an opaque, comparable name of a go/types type (map key, ==) with Kind, Elem and String.
+
+func (x *Exec) rtypeOf(t types.Type) *IfaceV {
+	name := "reflect.Type:" + t.String()
+	if x.eng.rtypes == nil {
+		x.eng.rtypes = map[string]types.Type{}
+	}
+	x.eng.rtmu.Lock()
+	x.eng.rtypes[name] = t
+	x.eng.rtmu.Unlock()
+	return &IfaceV{T: types.Typ[types.String], V: mkStr(name)}
+}
+
+func (x *Exec) rtypeFrom(v Value) types.Type {
+	iv, _ := v.(*IfaceV)
+	if iv == nil {
+		return nil
+	}
+	t, ok := iv.V.(*Term)
+	if !ok || !t.IsConc() {
+		return nil
+	}
+	name, _ := t.C.(string)
+	x.eng.rtmu.Lock()
+	defer x.eng.rtmu.Unlock()
+	return x.eng.rtypes[name]
+}
+
+// reflectTypeMethod: methods of the reflect.Type interface on the model's type names.
+func (x *Exec) reflectTypeMethod(iv *IfaceV, m string) func([]Value) Value {
+	t := x.rtypeFrom(iv)
+	if t == nil {
+		return nil
+	}
+	switch m {
+	case "Kind":
+		return func([]Value) Value {
+			k := reflect.Invalid
+			switch u := t.Underlying().(type) {
+			case *types.Pointer:
+				k = reflect.Pointer
+			case *types.Struct:
+				k = reflect.Struct
+			case *types.Map:
+				k = reflect.Map
+			case *types.Slice:
+				k = reflect.Slice
+			case *types.Interface:
+				k = reflect.Interface
+			case *types.Basic:
+				switch {
+				case u.Info()&types.IsString != 0:
+					k = reflect.String
+				case u.Info()&types.IsBoolean != 0:
+					k = reflect.Bool
+				case u.Info()&types.IsInteger != 0:
+					k = reflect.Int
+				case u.Info()&types.IsFloat != 0:
+					k = reflect.Float64
+				}
+			}
+			return mkInt(int64(k))
+		}
+	case "Elem":
+		return func([]Value) Value {
+			switch u := t.Underlying().(type) {
+			case *types.Pointer:
+				return x.rtypeOf(u.Elem())
+			case *types.Slice:
+				return x.rtypeOf(u.Elem())
+			case *types.Map:
+				return x.rtypeOf(u.Elem())
+			}
+			x.abort("PANIC", "reflect: Elem of invalid type "+t.String())
+			return nil
+		}
+	case "String", "Name":
+		return func([]Value) Value { return mkStr(t.String()) }
 	}
 	return nil
 }
